@@ -314,7 +314,10 @@ func (its *PushPullHandler) processSubscribeOrCreate(code pushPullCase) errors.O
 		switch code {
 		case caseMatchNothing:
 			return its.createDatatype()
-		case caseAllMatchedNotSubscribed:
+		case caseAllMatchedNotSubscribed, caseAllMatchedSubscribed:
+			// caseAllMatchedSubscribed: the same request again (duplicate, or a retry after its
+			// response was lost); answer it as a subscription again instead of pushing the client's
+			// operations under the datatype id the client made up
 			return its.subscribeDatatype()
 		}
 	} else if its.gotOption.HasSubscribeBit() {
@@ -323,8 +326,8 @@ func (its *PushPullHandler) processSubscribeOrCreate(code pushPullCase) errors.O
 			return errors.PushPullNoDatatypeToSubscribe.New(its.ctx.L(), its.Key)
 		case caseUsedDUID:
 		case caseMatchKeyNotType:
-		case caseAllMatchedSubscribed:
-		case caseAllMatchedNotSubscribed:
+		case caseAllMatchedSubscribed, caseAllMatchedNotSubscribed:
+			// caseAllMatchedSubscribed: a repeated subscribe request (see above)
 			return its.subscribeDatatype()
 		case caseAllMatchedNotVisible:
 		}
